@@ -95,6 +95,22 @@ add("C20", "model_checking",
     "explicit-state BFS over operation histories on the real objects with a zero-delta invariant on instrumentation counters",
     "DESIGN.md section 5 C20")
 
+add("C12", "model_checking",
+    "All ordered pairs of a finite type universe (closure of every type constructor over a hierarchy with chain, diamond, ABC, protocol, "
+    "builtins; depth 1 quick, 2 thorough; raw annotations and normal forms) are compared with typeorder in both directions: reflexivity, "
+    "mirror symmetry, no exception, and the statement's named clauses on the sub-families they name (all class triples for transitivity).",
+    "Trusted: nothing beyond the statement is demanded; annotations ovld refuses to normalise are left out.",
+    "exhaustive enumeration of all pairs (triples on the class fragment) of a finite type universe against algebraic laws",
+    "DESIGN.md section 5 C12")
+
+add("C13", "model_checking",
+    "Every static type of a finite universe x every class of a closed world: subclasscheck and dispatch-level applicability on the real "
+    "code must equal membership in the type's denotation computed from the documented meaning; Deferred on a not-yet-imported module; "
+    "reflexivity, issubclass-equivalence, transitivity (all triples) and covariance on the class + generic fragment.",
+    "Trusted: the denotation rules (documented meaning of each constructor).",
+    "exhaustive enumeration of a finite type universe x closed world of classes against a denotational oracle; all pairs / triples for the laws",
+    "DESIGN.md section 5 C13")
+
 ALL = [f"C{i:02d}" for i in range(1, 21)]
 REASON_PENDING = "check not built yet in this round (planned: DESIGN.md section 5); not claimed until its machinery exists"
 
